@@ -13,7 +13,7 @@ from mc.props.c03 import same_node, same_value, shape
 from valida.datapath import DataPath
 
 META = {
-    "rule": "every path (length bound) over the 42-part alphabet + 6 labelled parts + 4 parts with path-like literal / data-path arguments, built by the API and by part "
+    "rule": "every path (length bound) over the 42-part alphabet + 6 labelled parts + 7 parts with path-like literal / data-path / bool-type arguments, built by the API and by part "
             "specs; a case is one (path, construction) pair serialised with to_part_specs and to_json_like, rebuilt "
             "and compared on every document of the family; non-trivial = serialisation returned (did not refuse) "
             "and the rebuilt path was compared on all documents",
@@ -33,17 +33,21 @@ PATHLIKE_PARTS = [
     ("map", None, T.leaf("Value", "in_", [{"path": ["b"]}, 1]), None),
     ("mol", None, None, T.leaf("Value", "not_equal_to", {"path.length": ["a"]}), None),
     ("map", T.leaf("Key", "equal_to", ("$path", T.path((("prim", "k"),)))), None, None),
+    ("list", None, T.leaf("ValueDataType", "equal_to", bool), None),
+    ("mol", None, None, T.leaf("Value", "is_instance", bool, float), None),
+    ("map", T.leaf("KeyDataType", "in_", [bool, str]), T.leaf("ValueDataType", "not_equal_to", bool), None),
 ]
 PARTS = gen.PARTS + LABELLED + PATHLIKE_PARTS
 PATHLIKE_DOCS = [
     [{"Path": ["a", "b"]}, 1, {"path": ["b"]}, {"path.length": ["a"]}, ["a", "b"], 2],
     {"a": {"Path": ["a", "b"]}, "b": {"path": ["b"]}, "c": 1, "d": {"path.length": ["a"]}, "k": "a"},
+    [True, 1, 0, False, "x", 2.5, 1.0], {"a": True, True: 1, "b": 0, False: False, 2: 2.5},
 ]
 
 
 def path_list(tier):
     if tier == "quick":
-        return list(gen.paths(1, PARTS)) + [p for p in gen.paths(2, gen.PARTS12X + LABELLED[:2] + PATHLIKE_PARTS[:2]) if len(p[1]) == 2]
+        return list(gen.paths(1, PARTS)) + [p for p in gen.paths(2, gen.PARTS12X + LABELLED[:2] + PATHLIKE_PARTS[:2] + PATHLIKE_PARTS[4:5]) if len(p[1]) == 2]
     return list(gen.paths(2, PARTS))
 
 
